@@ -227,6 +227,9 @@ func MergeErrors(err, other error) error {
 	}
 	e := asError(err)
 	o := asError(other)
+	// Record the lineage before e is renamed and updated in place so that the history
+	// keeps every original error with its own name, message and flags.
+	hist := append(e.lineage(), o.lineage()...)
 	if e.Name == "error" {
 		e.Name = o.Name
 	}
@@ -235,7 +238,7 @@ func MergeErrors(err, other error) error {
 	// don't need to worry about gaining intermediate merges.
 	//
 	// Do this before we modify ourselves, as History() may include us!
-	e.history = append(e.History(), o.History()...)
+	e.history = hist
 	e.err = errors.Join(e.err, o.err)
 
 	e.Message = e.Message + "; " + o.Message
@@ -253,6 +256,16 @@ func (e *ServiceError) History() []*ServiceError {
 	}
 
 	return []*ServiceError{e}
+}
+
+// lineage returns the history of e. If e has not been merged yet it returns a copy of e
+// rather than e itself so that merging into e later does not alter the recorded original.
+func (e *ServiceError) lineage() []*ServiceError {
+	if len(e.history) > 0 {
+		return e.history[:len(e.history):len(e.history)]
+	}
+	orig := *e
+	return []*ServiceError{&orig}
 }
 
 // Error returns the error message.
